@@ -93,6 +93,7 @@ type Config struct {
 	Fallback    func(c *smt.Ctx, asserts []*smt.Term, wantModel bool, syms []*smt.Term) (smt.Result, smt.Model)
 	Concrete    map[string]string // if non-nil: concrete mode, inputs by name (hex); used for conformance
 	Tier        int
+	Seed        int
 	FreeChoices []Decision // concrete mode: recorded free choices to replay (kinds s, x, c)
 }
 
